@@ -149,6 +149,7 @@ def observe(c, rnd, n_obs):
     cases, outcomes, oracle = [], [], {}
     done, ano = 0, 0
     skipped = 0
+    xno = 0
     with cli.Sandbox("c17") as sb:
         while done < n_obs:
             ano += 1
@@ -229,7 +230,8 @@ def observe(c, rnd, n_obs):
                 msgs = []
                 i = len(cases)
                 if view == "extract":
-                    out = os.path.join(d, "x%d" % done)
+                    xno += 1                    # a fresh directory for every attempt: a skipped observation (below) must not
+                    out = os.path.join(d, "x%d" % xno)   # leave its partial extraction in the next one's output directory
                     r = cli.run_pna(["extract", "--overwrite", "--out-dir", out] + pw + ["--", inputs[0]] + pats, cwd=sb.root, timeout=60)
                     want = [o for o in lib if selected(o)]
                     hl = [o for o in want if o["kind"] == 3]
